@@ -156,7 +156,8 @@ fn world_of(e: &Ev) -> u8 {
         | Ev::Build { world, .. }
         | Ev::Exit { world, .. }
         | Ev::Return { world, .. }
-        | Ev::Module { world, .. } => *world,
+        | Ev::Module { world, .. }
+        | Ev::New { world, .. } => *world,
     }
 }
 
@@ -248,6 +249,7 @@ pub fn shape_hash(rec: &RunRecord) -> (u64, bool) {
                 Ev::Return { res, .. } => feed(if res.get("ok").is_some() { "ok" } else { "err" }),
                 Ev::Exit { res, .. } => feed(if res.get("ok").is_some() { "xok" } else { "xerr" }),
                 Ev::Module { what, .. } => feed(what),
+                Ev::New { .. } => {}
             }
         }
         feed(match &op.outcome {
